@@ -92,9 +92,21 @@ def run(case: dict, lean: Lean) -> Outcome:
     try:
         tb = TimeBoundedPopScore(cutoff=dt.datetime.fromtimestamp(cut), score="count"); tb.train(from_interactions_df(d2))
         s = dict(zip(cand, tb(ItemList(item_ids=cand)).scores()))
+        wantc = {i: sum(1 for r in rows if r[1] == i and r[3] > cut) for i in iid}
         for i in iid:
-            want = sum(1 for r in rows if r[1] == i and r[3] > cut)
-            if s[i] != want: failed.append(f"time-bounded count of {i} = {s[i]}, want {want}")
+            if s[i] != wantc[i]: failed.append(f"time-bounded count of {i} = {s[i]}, want {wantc[i]}")
+        # the average-rank and cumulative-share variants of the time-bounded scorer: the same definitions, applied to the after-cut-off counts of all training items
+        tds = from_interactions_df(d2); items_t = [int(x) for x in tds.items.ids()]; clt = [wantc[i] for i in items_t]
+        ordt = [int(x) for x in pd.Series(clt).sort_values().index]
+        mpt = lean.call("c08.pop", {"counts": clt, "order": ordt})
+        for variant in ("rank", "quantile"):
+            if variant == "quantile" and sum(clt) == 0: continue          # 0/0: no share is defined
+            tbv = TimeBoundedPopScore(cutoff=dt.datetime.fromtimestamp(cut), score=variant); tbv.train(tds)
+            sv = dict(zip(cand, tbv(ItemList(item_ids=cand)).scores()))
+            for k_, i in enumerate(items_t):
+                w = mpt[variant][k_]; want = float(Fraction(w)) if isinstance(w, str) else float(w)
+                if not _close(float(sv[i]), want, 1e-6): failed.append(f"time-bounded pop[{variant}] of item {i} = {sv[i]}, definition over the after-cut-off counts {want}")
+            if not math.isnan(sv[8888]): failed.append(f"time-bounded pop[{variant}] scores an unknown item")
     except Exception as e:
         failed.append(f"time-bounded popularity raised {type(e).__name__}")
         if case["dt_times"] and isinstance(e, TypeError) and len(failed) == 1: key = "TimeBoundedPopScore on a date-time timestamp column raises TypeError"
